@@ -109,6 +109,11 @@ def _indent(s: str, n: int = 4) -> str:
     return '\n'.join((' ' * n + l) if l else l for l in s.split('\n'))
 
 
+S['setter-on-nonproperty'] = ('class K:\n    class x: pass\n    @x.setter\n    def x(self, v): pass\n    y = 1\n    @y.setter\n    def y(self, v): pass\n    def z(self): pass\n'
+                              '    @z.setter\n    def z(self, v): pass\n    @nope.setter\n    def w(self, v): pass\n    @x.getter\n    def x2(self): pass\n    @z.deleter\n    def z(self): pass\n'
+                              '    @property\n    def p(self): pass\n    class p: pass\n    @p.setter\n    def p(self, v): pass')
+S['setter-at-module-level'] = 'x = 1\n@x.setter\ndef x(v): pass\nclass C: pass\n@C.setter\ndef C(v): pass\n@property\ndef q(): pass\n@q.setter\ndef q(v): pass'
+
 # ---- additions after the third round: every field of every docstring syntax on every kind of owner (a field that makes no sense on its
 # owner - parameters of a module, instance variables of a function - is an ordinary mistake in real docstrings)
 _EPY_TAGS = ['param a', 'type a', 'keyword k', 'return', 'rtype', 'raise ValueError', 'ivar q', 'cvar c', 'var v', 'type q', 'yield', 'ytype', 'note', 'see', 'author',
